@@ -435,8 +435,15 @@ UNITS['build'] = {
               'MK_M': '^_ZN14vp_trompeloeil4vp_MC1Ev$', 'MK_SEQ': '^_ZN11trompeloeil8sequenceC1Ev$', 'M_DTOR': 'dtor:^vp_vp_M$', 'SEQ_DTOR': 'dtor:^sequence$',
               'CM': r'rec:^call_matcher<int\(int\),std::tuple<wildcard>>$', 'SM': 'rec:^sequence_matcher$', 'SH1': 'rec:^sequence_handler<1>$', 'SH0': 'rec:^sequence_handler<0>$'},
 }
-for e, props in (('b_rt_times', ['C03', 'C05', 'C06', 'C04', 'C14']), ('b_two_in_sequence', ['C05', 'C06', 'C14']), ('b_plain_and_forbid', ['C03', 'C07', 'C04', 'C14'])):
-    ob(name='build.%s' % e[2:], kind='FC+', props=props, unit='build', harness='h_build.c', entry=e, unwind=6, timeout=240,
+# unit build_full: the same, plus the user's real WITH / SIDE_EFFECT / RETURN closures as dynamic types and mock_func (kept apart: with
+# these dispatch targets a symbolic exception edge in front of the dispatch makes CBMC 6.11 abort with an internal error)
+UNITS['build_full'] = copy.deepcopy(UNITS['build'])
+UNITS['build_full']['dyn_types'] += [r'^condition<int\(int\),\(lambdaat.*\)>$', r'^side_effect<int\(int\),\(lambdaat.*\)>$']
+UNITS['build_full']['roots'].update({'BUILD_FULL': '^_ZN14vp_trompeloeil13vp_build_fullE', 'MOCK_FUNC': '9mock_funcILb0EFiiEJRiEE', 'SH2': 'rec:^sequence_handler<2>$'})
+for e, props in (('b_rt_times', ['C01', 'C03', 'C04', 'C05', 'C06', 'C08', 'C14', 'C15']), ('b_two_in_sequence', ['C02', 'C04', 'C05', 'C06', 'C14']), ('b_plain_and_forbid', ['C02', 'C03', 'C04', 'C05', 'C07', 'C14', 'C15']),
+                 ('b_full_expectation', ['C01', 'C03', 'C04', 'C05', 'C06', 'C08', 'C14', 'C15', 'C16'])):
+    ob(name='build.%s' % e[2:], kind='FC+', props=props, unit='build_full' if e == 'b_full_expectation' else 'build', harness='h_build.c', entry=e, unwind=6, timeout=600,
+       defines={'WANT_FULL': 1} if e == 'b_full_expectation' else {},
        bound='none for the scalars (free RT_TIMES bounds); one mock object, one sequence, one or two expectations built by the real constructor chain')
 
 # thorough-only: mock_func with expectations in two sequences (concrete K), larger text shapes
